@@ -23,14 +23,18 @@ CORE_ALIASES = {"MODULE_ID": "int16", "HOST_ID": "int16", "MSG_TYPE": "int32", "
 
 
 class Namer:
-    def __init__(self, rng, tag=""):
+    def __init__(self, rng, tag="", long_names=0.04):
         self.rng = rng
         self.used = set()
         self.tag = tag
+        self.long_names = long_names
 
     def new(self, prefix, upper=True):
         while True:
             w = self.rng.choice(WORDS)
+            if self.rng.random() < self.long_names:
+                # a long identifier (legal everywhere; column-aligned output formats have to cope)
+                w = "_".join(self.rng.choice(WORDS) for _ in range(self.rng.randint(9, 12)))[:self.rng.choice([40, 41, 42, 43, 44, 46, 50, 55])]
             n = f"{prefix}{self.tag}{w}{self.rng.randint(0, 99)}"
             n = n.upper() if upper else n.lower()
             if n not in self.used:
@@ -111,18 +115,24 @@ def struct_layout(desc, name, cache=None):
 
 # --------------------------------------------------------------------------------------------- generator
 class Gen:
-    def __init__(self, rng: random.Random, allow_known=False, max_files=5, heavy_align=False, use_core=True, tag=""):
+    def __init__(self, rng: random.Random, allow_known=False, max_files=5, heavy_align=False, use_core=True, tag="", long_names=0.04):
         self.rng = rng
         self.allow_known = allow_known
         self.max_files = max_files
         self.heavy = heavy_align
         self.use_core = use_core
-        self.nm = Namer(rng, tag)
+        self.nm = Namer(rng, tag, long_names)
         self.desc = Desc()
         self.next_id = rng.randint(1000, 4000)
+        # message ids in definition order are ascending in most programs and descending in the others (a nested message
+        # may then have a larger id than the message that uses it)
+        self.descending_ids = rng.random() < 0.35
         self.mids = rng.sample(list(range(10, 100)) + list(range(200, 260)), 20)
         self.hids = rng.sample(range(1, 32000), 20)
         self.cache = {}
+
+    def idmap(self, x):
+        return 10990 - x if self.descending_ids else x
 
     # ---- per-file body
     def gen_file(self, fname, visible, imported_structs, imported_msgs):
@@ -283,7 +293,7 @@ class Gen:
         for _ in range(rng.randint(1, 4)):
             n = self.nm.new("M_")
             self.next_id += rng.randint(1, 7)
-            mid = self.next_id
+            mid = self.idmap(self.next_id)
             r = rng.random()
             extra = [s for s in local_structs + imported_structs + imported_msgs + local_msgs if depth_of(s) < 3 and D.defs[s]["kind"] != "signal"]
             if r < 0.2:
@@ -313,11 +323,12 @@ class Gen:
                 a = self.next_id
                 k = rng.choice(["n", "dash", "to"])
                 if k == "n":
-                    parts.append(str(a))
-                    ids.append(a)
+                    parts.append(str(self.idmap(a)))
+                    ids.append(self.idmap(a))
                 else:
                     b = a + rng.randint(0, 4)
                     self.next_id = b
+                    a, b = sorted((self.idmap(a), self.idmap(b)))
                     parts.append(f"{a} - {b}" if k == "dash" else f"{a} to {b}")
                     ids += list(range(a, b + 1))
             sections["message_defs"].append(f"  _RESERVED_:\n    id: [{', '.join(parts)}]")
